@@ -20,8 +20,17 @@ R_ = MB.R
 E2 = BL.E2
 
 
+PKPREFIX = b"<PK>"  # placeholder: replaced by the signer's 48 public-key bytes
+
+
 def messages():
-    return [b"", b"\x00", bytes(range(64)), b"abc"]
+    return [b"", b"\x00", bytes(range(64)), b"abc", PKPREFIX + b"abc"]
+
+
+def _resolve_msg(msg, sk):
+    if msg.startswith(PKPREFIX):
+        return MB.sk_to_pk(sk) + msg[len(PKPREFIX):]
+    return msg
 
 
 def keys(env):
@@ -33,6 +42,7 @@ def candidates(env, target, suite, sk, msg, flips):
     """[(label, bytes)] - target: 'sig' (Verify) or 'pop' (PopVerify). Deterministic in env."""
     g = rng(env, "cand:%s:%s:%d" % (target, suite, sk % 1000))
     pk = MB.sk_to_pk(sk)
+    msg = _resolve_msg(msg, sk)
     if target == "sig":
         hm = MB.hashed_message(suite, sk, msg)
         dst = MB.DST[suite]
@@ -52,6 +62,8 @@ def candidates(env, target, suite, sk, msg, flips):
         for lbl, m2 in alts:
             if m2 != msg:
                 out.append((lbl, MB.sign(suite, sk, m2)))
+        if msg.startswith(pk):
+            out.append(("signature-of-message-without-key-prefix", MB.sign(suite, sk, msg[48:])))
         for s2 in BL.SUITES:
             if s2 != suite:
                 out.append(("suite:" + s2, MB.sign(s2, sk, msg)))
@@ -103,6 +115,7 @@ def candidates(env, target, suite, sk, msg, flips):
 def cand_case(env, target, suite, sk, msg, flips, idx):
     """evaluate candidate #idx: (label, expected, observed)"""
     S, cands = candidates(env, target, suite, sk, msg, flips)
+    msg = _resolve_msg(msg, sk)
     lbl, c = cands[idx]
     C = BL.suite_cls(suite)
     pk = MB.sk_to_pk(sk)
@@ -118,10 +131,15 @@ def task_cands(a, env):
     target, suite, sk, msg = a["target"], a["suite"], int(a["sk"], 16), bytes.fromhex(a["msg"])
     r = R("%s:%s" % ("Verify" if target == "sig" else "PopVerify", suite))
     S, cands = candidates(env, target, suite, sk, msg, a["flips"])
+    msg = _resolve_msg(msg, sk)
     C = BL.suite_cls(suite)
     pk = MB.sk_to_pk(sk)
     seen = set()
-    for idx in range(a["lo"], len(cands), a["step"]):
+    idxs = list(range(a["lo"], len(cands), a["step"]))
+    # every slice is a history: the honest signature is verified first and again last, so that a
+    # verdict that depends on what was decoded / verified before it shows up inside the task
+    idxs = [0] + [i for i in idxs if i != 0] + [0]
+    for idx in idxs:
         lbl, c = cands[idx]
         exp = c == S
         if target == "sig":
@@ -167,6 +185,7 @@ def run(ctx):
         for i, sk in enumerate(kk):
             for j, m in enumerate(mm):
                 combos.append(("sig", suite, sk, m, ("byte" if i == j else "none") if q else "all"))
+        combos.append(("sig", suite, kk[-1], ms[4], "none"))
     combos.append(("pop", "pop", ks[2], b"", "byte" if q else "all"))
     if not q:
         combos += [("pop", "pop", ks[0], b"", "all"), ("pop", "pop", ks[1], b"", "all")]
